@@ -120,7 +120,7 @@ def explore_pair(progA, progB, d, N, start, *, partial=False, budget=None, relea
         elif len(out['samples']) < 4:
             m = ex.model_for(True)
             out['samples'].append({'input': bytes(m['bytes']).hex(), 'start': start, 'outcome': repr(a[:5])[:200]})
-        if len(a) > 5:
+        if len(a) > 5 and len(b) > 5:
             out['depthA'].append(a[5])
             out['depthB'].append(b[5])
 
